@@ -53,6 +53,7 @@ Expected(ev) ==
     [] ev.op = "cartesian" -> VCartSelf(ev.v, ev.T)
     [] ev.op = "argcomb" -> IF a.n < 1 THEN Err ELSE VAxisOp([n |-> "argcomb", k |-> a.n, repl |-> a.repl], ev.v, ev.T, a.axis)
     [] ev.op = "field" -> VGetItem(ev.v, ev.T, <<Field(a.key)>>)
+    [] ev.op = "withfield_b" -> VWithFieldBroadcast(ev.v, ev.T, a.new, a.vals)
     [] ev.op = "withfield" -> VWithFieldSelf(ev.v, ev.T, a.key, a.new)
     [] ev.op = "ufunc" -> VUfunc(ev.v, ev.T, a.mul = 1)
     [] ev.op = "filter" -> VFilter(ev.v, ev.T, a.k)
